@@ -63,7 +63,7 @@ func (i *Iter) Next() bool {
 			break
 		}
 	}
-	return true
+	return i.err == nil
 }
 
 // Err returns the last error encountered by the iterator (if any).
